@@ -6,6 +6,9 @@
 set -u
 NAME="$1"; PATCH="$(readlink -f "$2")"; DEMO="$(readlink -f "$3")"; shift 3
 WT=/tmp/confirm-$NAME
+if [ "${SKIP_CONFIRM:-0}" = 1 ]; then
+  BASE=0; MUT=1; SUITE_OK=1; HOOKS_BUILD=0
+else
 rm -rf "$WT"; git -C /repo worktree prune
 git -C /repo worktree add -q --detach "$WT" HEAD || exit 2
 cleanup() { git -C /repo worktree remove --force "$WT" >/dev/null 2>&1; rm -rf "$WT"; }
@@ -15,14 +18,17 @@ export CARGO_TARGET_DIR="$WT/target" CARGO_NET_OFFLINE=true
 mkdir -p tests; DEMONAME=$(basename "$DEMO" .rs); cp "$DEMO" tests/$DEMONAME.rs
 cargo test --offline --test $DEMONAME >/tmp/confirm-$NAME.base.log 2>&1; BASE=$?
 if ! git apply "$PATCH"; then echo "{\"name\":\"$NAME\",\"error\":\"patch does not apply\"}"; exit 2; fi
-SUITE=$(cargo test --workspace --no-fail-fast --offline --lib --bins --doc 2>&1 | grep "test result" | tr '\n' ' ')
+SUITE=$( (cargo test --workspace --no-fail-fast --offline --lib --bins 2>&1; cargo test --workspace --no-fail-fast --offline --doc 2>&1) | grep "test result" | tr '\n' ' ')
 SUITE_OK=0; echo "$SUITE" | grep -q "102 passed; 0 failed" && echo "$SUITE" | grep -q "3 passed; 0 failed" && ! echo "$SUITE" | grep -q "FAILED" && SUITE_OK=1
 cargo build --offline --features xsg_verif >/dev/null 2>&1; HOOKS_BUILD=$?
 cargo test --offline --test $DEMONAME >/tmp/confirm-$NAME.mut.log 2>&1; MUT=$?
+cleanup; trap - EXIT
+fi
 cd /verif
 RESULTS=""
 if [ $BASE -eq 0 ] && [ $MUT -ne 0 ] && [ $SUITE_OK -eq 1 ] && [ $HOOKS_BUILD -eq 0 ]; then
   CONFIRMED=true
+  if [ "${CONFIRM_ONLY:-0}" = 1 ]; then echo "{\"name\":\"$NAME\",\"confirmed\":true}"; exit 0; fi
   if ! git -C /repo diff --quiet; then echo "/repo dirty" >&2; exit 2; fi
   git -C /repo apply "$PATCH" || exit 2
   mkdir -p /tmp/mutant-out
